@@ -147,6 +147,12 @@ func (a *auditor) checkDesc(kind, parent string, d gDesc) ([]byte, *finding) {
 	if _, ok := hashAs(d.Digest, nil); !ok {
 		return nil, fnd(kind+"-digest-malformed", "%s descriptor in %s has malformed digest %q", kind, parent, d.Digest)
 	}
+	if d.MediaType == "" {
+		// required by the image spec; without it nothing says how the content is encoded
+		f := fnd(kind+"-mediatype-empty", "%s descriptor %s in %s has no mediaType", kind, d.Digest, parent)
+		f.Digest = d.Digest
+		return nil, f
+	}
 	var inline []byte
 	hasInline := false
 	if d.Data != nil && *d.Data != "" {
